@@ -170,7 +170,8 @@ def make_case(pid, unit):
     g = gen.G("%s/corpus/%s/%s/%s" % (pid, unit["seed"], unit["corpus"], unit["rep"]))
     plain = unit["rep"] == 0 and unit["corpus"] % 2 == 0
     return {"fixture": rel, "transforms": {} if plain else random_full_transforms(g, load(rel)),
-            "population": 1000, "indices_first": g.chance(0.5)}
+            "population": 1000, "indices_first": g.chance(0.5),
+            "mask_size": g.pick([0, 3, 10, 50, 200])}
 
 
 def _pairwise_ctx(tr):
@@ -202,7 +203,7 @@ def check_case(pid, case):
     tr = case.get("transforms") or {}
     res.descriptor = {"fixture": case["fixture"], "transforms": tr}
     cube = Cube(json.loads(json.dumps(resp)), transforms=copy.deepcopy(tr),
-                population=case.get("population"))
+                population=case.get("population"), mask_size=case.get("mask_size", 0))
     parts = read(cube, "partitions")
     if not parts.ok:
         base = read(Cube(json.loads(json.dumps(resp))), "partitions")
@@ -217,7 +218,7 @@ def check_case(pid, case):
                   for x in ("elements", "prune"))
     ctx = {"population": case.get("population"), "alpha": a1, "alpha_alt": a2,
            "only_larger": ol, "indices_first": case.get("indices_first"),
-           "display_transforms": display}
+           "display_transforms": display, "mask_size": case.get("mask_size", 0)}
     before = res.comparisons
     for part in parts.value:
         intrinsic.run(pid, res, part, ctx)
